@@ -461,10 +461,10 @@ func (s *UtxoStore) VerifWF() bool { return s != nil && s.bucketMeta != nil }
 // L4 completeness half: the guards that decide whether a read credit is counted are exactly the specification
 // (confirmations against minConf; consensus spendability and mempool state; the class tests).  Together with the
 // per-iteration clauses above: a credit is added to a column exactly when the rule says so.
-//@   if#10 guard[C01,C10] when cred.block.Height <= syncHeight && syncHeight < 18446744073709551615 :: mathint(syncHeight) - mathint(cred.block.Height) + 1 >= mathint(minConf)
-//@   if#12 guard[C01,C10] when cred.block.Height <= syncHeight && syncHeight < 18446744073709551615 :: consensusSpendable(cred.maturity, cred.block.Height, syncHeight) && !poolSpent(txpool, cred)
-//@   if#13 guard[C01,C10] cred.flags.Class == ClassBindingUtxo
-//@   if#15 guard[C01,C10] cred.flags.Class == ClassStakingUtxo
+//@   ifat "balance.Total, err = balance.Total.Add(cred.amount)" guard[C01,C10] when cred.block.Height <= syncHeight && syncHeight < 18446744073709551615 :: mathint(syncHeight) - mathint(cred.block.Height) + 1 >= mathint(minConf)
+//@   ifat "if cred.isBinding() {..." guard[C01,C10] when cred.block.Height <= syncHeight && syncHeight < 18446744073709551615 :: consensusSpendable(cred.maturity, cred.block.Height, syncHeight) && !poolSpent(txpool, cred)
+//@   ifat "balance.WithdrawableBinding, err = balance.WithdrawableBinding.Add(cred.amount)" guard[C01,C10] cred.flags.Class == ClassBindingUtxo
+//@   ifat "balance.WithdrawableStaking, err = balance.WithdrawableStaking.Add(cred.amount)" guard[C01,C10] cred.flags.Class == ClassStakingUtxo
 //@   loop#2 step[C17] has(ret, strOf(cred.scriptHash)) && amt(curBal(ret, cred).Spendable) != old(amt(ret[cur(strOf(cred.scriptHash))].Spendable)) ==> consensusSpendable(cred.maturity, cred.block.Height, syncHeight)
 //@   loop#2 step[C17] has(ret, strOf(cred.scriptHash)) && amt(curBal(ret, cred).WithdrawableStaking) != old(amt(ret[cur(strOf(cred.scriptHash))].WithdrawableStaking)) ==> consensusSpendable(cred.maturity, cred.block.Height, syncHeight)
 //@   loop#2 step[C17] has(ret, strOf(cred.scriptHash)) && amt(curBal(ret, cred).WithdrawableBinding) != old(amt(ret[cur(strOf(cred.scriptHash))].WithdrawableBinding)) ==> consensusSpendable(cred.maturity, cred.block.Height, syncHeight)
